@@ -117,8 +117,8 @@ func vpC02RefMaps(ver *common.VersionedTransaction, ins []*vpLUTXO) (ok bool, wh
 }
 
 func TestVP_C02_threshold_maps(t *testing.T) {
-	c := kit.New(t, "C02", "rapid: ledgers whose outputs have 1..N keys (N=10 quick, 40 thorough) and thresholds 0..keys+1; spends of 1..4 inputs with drawn signer subsets (below/at/above threshold) as per-input maps, then forged twins: wrong-key, swapped-layout, index-out-of-range, other-payload, sigbyte, mixed-invalid, moved-index; oracle: Validate accepts => every attached signature verifies on its own under the spent output's own key at that index and each input reaches its threshold (re-verified with Key.Verify); honest spends meeting max(1,threshold) everywhere must be accepted; every single-byte mutation of an accepted encoding (all thresholds>0) must fail; non-trivial = accepted multi-input tx or forged twin; distinct by payload hash+class")
-	c.Require("accepted-multi", "below-threshold", "th0", "th-unspendable", "wrong-key", "swapped-layout", "index-oor", "other-payload", "sigbyte", "mixed-invalid", "moved-index", "tamper-byte")
+	c := kit.New(t, "C02", "rapid: ledgers whose outputs have 1..N keys (N=10 quick, 40 thorough) and thresholds 0..keys+1; spends of 1..4 inputs with drawn signer subsets (below/at/above threshold) as per-input maps, in half of the accepted cases the inputs are then locked under the payload hash (as the node does), then forged twins: wrong-key, swapped-layout, index-out-of-range, other-payload, sigbyte, mixed-invalid, moved-index; oracle: Validate accepts => every attached signature verifies on its own under the spent output's own key at that index and each input reaches its threshold (re-verified with Key.Verify); honest spends meeting max(1,threshold) everywhere must be accepted; every single-byte mutation of an accepted encoding (all thresholds>0) must fail; non-trivial = accepted multi-input tx or forged twin; distinct by payload hash+class")
+	c.Require("accepted-multi", "below-threshold", "th0", "th-unspendable", "wrong-key", "swapped-layout", "index-oor", "other-payload", "sigbyte", "mixed-invalid", "moved-index", "tamper-byte", "twins-judged-on-locked-inputs")
 	kit.SetChecks(kit.N(60, 3000))
 	maxKeys := 10
 	if kit.Thorough() {
@@ -171,6 +171,19 @@ func TestVP_C02_threshold_maps(t *testing.T) {
 			c.Case(ver.PayloadHash().String()+fmt.Sprint(p.signers), err == nil && len(p.ins) > 1, cl...)
 			c.Sample(map[string]any{"inputs": len(p.ins), "signers": p.signers, "thresholds": vpC02Ths(p.ins), "keys": vpC02Nks(p.ins), "accepted": err == nil})
 
+			if err == nil && rapid.Bool().Draw(t, "lock_after_accept") {
+				// what the node does next with an accepted transaction: its inputs get
+				// locked under its payload hash. Signatures are not part of that hash,
+				// so every twin below shares the lock - and must still be judged by
+				// its own signatures
+				if lerr := ver.LockInputs(l.Store, false); lerr != nil {
+					t.Fatalf("locking the inputs of an accepted spend: %v", lerr)
+				}
+				for _, u := range p.ins {
+					u.Lock = ver.PayloadHash()
+				}
+				c.Class("twins-judged-on-locked-inputs")
+			}
 			// tamper sentence on accepted transactions with all thresholds > 0
 			if err == nil && allPositive {
 				enc := ver.Marshal()
